@@ -407,9 +407,9 @@ func guardsOnEdge(pred, succ *ssa.BasicBlock) []guard {
 	}
 	if ifi, ok := pred.Instrs[len(pred.Instrs)-1].(*ssa.If); ok {
 		if pred.Succs[0] == succ && pred.Succs[1] != succ {
-			gs = append(gs, guard{ifi.Cond, true, ifi})
+			gs = append(gs, guard{Cond: ifi.Cond, Truth: true, If: ifi})
 		} else if pred.Succs[1] == succ && pred.Succs[0] != succ {
-			gs = append(gs, guard{ifi.Cond, false, ifi})
+			gs = append(gs, guard{Cond: ifi.Cond, Truth: false, If: ifi})
 		}
 	}
 	return gs
